@@ -6,6 +6,7 @@ wildcard subjects, (4) the server path with fallback.
 -/
 import OpenFGAVerif.Driver.FgaCase
 import OpenFGAVerif.Model.CheckV2
+import OpenFGAVerif.Model.V2Breaking
 
 open OpenFGAVerif OpenFGAVerif.Proto OpenFGAVerif.Vocab OpenFGAVerif.FgaCase OpenFGAVerif.DfsG
 
@@ -146,6 +147,12 @@ def step (c impl : String) : String :=
     let fb := i.get "fb" = "1"
     let logs := (i.get "log").splitOn ","
     let kind := subjKind cs.world.req.user
+    -- the detector predicates, model against implementation
+    let dash := fun (x : String) => if x = "" then "-" else x
+    let crM := dash (V2Breaking.checkReason cs.world.model cs.world.req)
+    let cxM := dash (V2Breaking.checkExclusionReason cs.world.model cs.world.req)
+    if kind = "userset" && crM ≠ i.get "cr" then modelDiff s!"CheckReason={crM}" else
+    if cxM ≠ i.get "cx" then modelDiff s!"CheckExclusionReason={cxM}" else
     let v1w : CheckV1.World := { cs.world with ctxTuples := sortByObj cs.world.ctxTuples }
     if i.get "mg" ≠ "ok" then
       -- the weighted graph cannot be built: the server must serve the request from the default engine
